@@ -248,7 +248,11 @@ func (n *fNatsSubscriberTransport) Subscribe(topic string, callback FAsyncCallba
 			"cannot subscribe to empty subject")
 	}
 
-	sub, err := n.conn.QueueSubscribe(n.formattedSubject(topic), n.queue, n.putMessageToWorkerQueue)
+	// Every subscription gets its own channels: quitC is closed by Unsubscribe,
+	// and messages of an earlier subscription must not reach this callback.
+	workC := make(chan *nats.Msg, cap(n.workC))
+	quitC := make(chan struct{})
+	sub, err := n.conn.QueueSubscribe(n.formattedSubject(topic), n.queue, func(msg *nats.Msg) { workC <- msg })
 	if err != nil {
 		return thrift.NewTTransportExceptionFromError(err)
 	}
@@ -257,20 +261,21 @@ func (n *fNatsSubscriberTransport) Subscribe(topic string, callback FAsyncCallba
 	}
 	n.sub = sub
 	n.isSubscribed = true
+	n.workC, n.quitC = workC, quitC
 	for i := uint(0); i < n.workerCount; i++ {
-		go n.worker(callback)
+		go n.worker(callback, workC, quitC)
 	}
 	return nil
 }
 
 // worker should be called as a goroutine. It reads messages off the work
 // channel and calls the user provided callback function.
-func (n *fNatsSubscriberTransport) worker(callback FAsyncCallback) {
+func (n *fNatsSubscriberTransport) worker(callback FAsyncCallback, workC <-chan *nats.Msg, quitC <-chan struct{}) {
 	for {
 		select {
-		case <-n.quitC:
+		case <-quitC:
 			return
-		case msg := <-n.workC:
+		case msg := <-workC:
 			if len(msg.Data) < 4 {
 				logger().Warn("frugal: Discarding invalid scope message frame")
 				continue
@@ -281,11 +286,6 @@ func (n *fNatsSubscriberTransport) worker(callback FAsyncCallback) {
 			}
 		}
 	}
-}
-
-// putMessageToWorkerQueue puts a received message to the internal work channel.
-func (n *fNatsSubscriberTransport) putMessageToWorkerQueue(msg *nats.Msg) {
-	n.workC <- msg
 }
 
 // IsSubscribed returns true if the transport is subscribed to a topic, false
